@@ -39,6 +39,11 @@ def plan(tier):
         t.append({'kind': 'lookup', 'db': name, 'n': 2, 'm': 2, 'first': None})
         for f in range(16):
             t.append({'kind': 'lookup', 'db': name, 'n': 2, 'm': 3, 'first': f})
+        for f in range(16):
+            t.append({'kind': 'lookup', 'db': name, 'n': 2, 'm': 4, 'first': f})
+        if tier == 'thorough':
+            for f in range(16):
+                t.append({'kind': 'lookup', 'db': name, 'n': 2, 'm': 5, 'first': f})
         t.append({'kind': 'lookup', 'db': name, 'n': 3, 'm': 1, 'first': None})
         for f in range(0, 256, 8):
             t.append({'kind': 'lookup', 'db': name, 'n': 3, 'm': 2, 'first': [f, f + 8]})
@@ -62,8 +67,8 @@ def describe(tier):
         'defined entries and is no larger than the stored circuit of any completion. distinct = distinct '
         '(db, n, m, gate count) outcomes.',
         'bounds': {
-            'quick': 'all 699,448 entries; lookups (2,1..3),(3,1),(3,2); models (2,1),(2,2),(3,1)',
-            'thorough': '+ lookups (3,3): 16.8M tables per database',
+            'quick': 'all 699,448 entries; lookups (2,1..4),(3,1),(3,2); identical request repeated after editing the returned circuit for (2,1),(2,2),(3,1) and the (2,1) models; models (2,1),(2,2),(3,1)',
+            'thorough': '+ lookups (2,5), (3,3): 16.8M tables per database',
         }[tier],
         'exhaustive': True,
         'assumptions': ['vmc.refmodel evaluator; own normalisation (negate rows starting with 1, sort, deduplicate)'],
@@ -140,7 +145,7 @@ def _rows(v, rows):
     return [bool((v >> j) & 1) for j in range(rows)]
 
 
-def check_lookup_one(name, n, vs, acc, as_tuples=False):
+def check_lookup_one(name, n, vs, acc, as_tuples=False, requery=False):
     d = db(name)
     rows = 1 << n
     tt = [_rows(v, rows) for v in vs]
@@ -176,6 +181,22 @@ def check_lookup_one(name, n, vs, acc, as_tuples=False):
     if not types <= BASIS[name]:
         acc.violation('lookup/gate-outside-basis', case, sorted(types - BASIS[name]))
     acc.outcome('lookup', (name, n, len(vs), c.gates_number()))
+    if requery:
+        # the caller owns the circuit it was given: edit it, ask the same question again
+        from cirbo.core.circuit import gate as G
+
+        acc.transitions += 1
+        try:
+            c.emplace_gate('zz_edit', G.NOT, (net.outputs[0],))
+            c.set_outputs(['zz_edit'] * len(net.outputs))
+            c2 = d.get_by_raw_truth_table(tt)
+            net2 = refmodel.abstract(c2)
+            got2 = net2.out_tables()
+        except Exception as e:  # noqa: BLE001
+            acc.violation(f'lookup/second-identical-request-raises-{type(e).__name__}', case, repr(e)[:200])
+            return
+        if c2 is c or got2 != list(vs) or len(net2.inputs) != n:
+            acc.violation('lookup/second-identical-request-returns-the-edited-circuit', case, f'got {[refmodel.tt_str(v, n) for v in got2]}')
 
 
 def check_lookup(task, acc):
@@ -189,7 +210,7 @@ def check_lookup(task, acc):
         firsts = [first]
     for f in firsts:
         for rest in itertools.product(range(total), repeat=m - 1):
-            check_lookup_one(name, n, (f,) + rest, acc)
+            check_lookup_one(name, n, (f,) + rest, acc, requery=(n == 2 and m <= 2) or m == 1)
             if m >= 2 and (n == 2 or (f + sum(rest)) % 16 == 0):
                 check_lookup_one(name, n, (f,) + rest, acc, as_tuples=True)
     acc.sample({'db': name, 'n': n, 'tables': [refmodel.tt_str(v, n) for v in ((firsts[0],) + (total - 1,) * (m - 1))]})
@@ -239,6 +260,23 @@ def check_model_one(name, n, tabs, acc):
     if best is None or c.gates_number() > best:
         acc.violation('model-lookup/not-minimal', case, f'returned {c.gates_number()} gates, best completion has {best}')
     acc.outcome('model', (name, n, len(tabs), c.gates_number()))
+    if n == 2 and len(tabs) == 1:
+        from cirbo.core.circuit import gate as G
+
+        acc.transitions += 1
+        try:
+            c.emplace_gate('zz_edit', G.NOT, (net.outputs[0],))
+            c.set_outputs(['zz_edit'] * len(net.outputs))
+            c2 = d.get_by_raw_truth_table_model(ttm)
+            got2 = refmodel.abstract(c2).out_tables()
+        except Exception as e:  # noqa: BLE001
+            acc.violation(f'model-lookup/second-identical-request-raises-{type(e).__name__}', case, repr(e)[:200])
+            return
+        for v, t in zip(got2, tabs):
+            s2 = refmodel.tt_str(v, n)
+            if c2 is c or any(ch != '*' and ch != sc for ch, sc in zip(t, s2)):
+                acc.violation('model-lookup/second-identical-request-returns-the-edited-circuit', case, '')
+                return
     if n == 2 and len(tabs) == 1:
         # an explicit exclusion list changes the size measure: [] / () mean "count every gate"
         for excl in ([], ()):
